@@ -14,7 +14,9 @@ def JustLs (es : List IExpr) : Prop :=
   (∀ xs G Γ s ts Γ' s', goZip es xs G Γ s = some (ts, Γ', s') → Clean s' →
     ∀ B, BIn B (bindersL ts) → EnvAll B Γ → EnvAll B Γ' ∧ JL B G.funs s'.cs (oblsL ts)) ∧
   (∀ exp G Γ s ts Γ' s', goBlock es exp G Γ s = some (ts, Γ', s') → Clean s' →
-    ∀ B, BIn B (bindersL ts) → EnvAll B Γ → EnvAll B Γ' ∧ JL B G.funs s'.cs (oblsL ts))
+    ∀ B, BIn B (bindersL ts) → EnvAll B Γ → EnvAll B Γ' ∧ JL B G.funs s'.cs (oblsL ts)) ∧
+  (∀ el G Γ s ts Γ' s', goArr es el G Γ s = some (ts, Γ', s') → Clean s' →
+    ∀ B, BIn B (bindersL ts) → EnvAll B Γ → EnvAll B Γ' ∧ JL B G.funs s'.cs (oblsL ts ++ relAll ts el))
 
 def JustA (arms : List IArm) : Prop :=
   ∀ sty exp armTy G Γ s tas Γ' s', goArms arms sty exp armTy G Γ s = some (tas, Γ', s') → Clean s' →
@@ -126,7 +128,7 @@ theorem go_just : ∀ e, Just1 e := by
       obtain ⟨rfl, rfl, lf, hexp⟩ := finish_inv h
       simp only [binders] at hB
       have L1 : Le s1 s' := (le_popScope _ _).trans lf
-      obtain ⟨e1, j1⟩ := ih.2.2 exp G _ s ts _ s1 h1 (L1.nodiag hd) B hB hΓ.push
+      obtain ⟨e1, j1⟩ := ih.2.2.1 exp G _ s ts _ s1 h1 (L1.nodiag hd) B hB hΓ.push
       exact ⟨e1.pop, by simp only [obls]; exact JL.append (j1.mono L1) (JL.one rfl), hexp⟩
   -- ite
   · intro i c t e ihc iht ihe exp G Γ s tt0 Γ' s' h hd B hB hΓ
@@ -443,13 +445,17 @@ theorem go_just : ∀ e, Just1 e := by
     simp only [Option.some.injEq, Prod.mk.injEq] at h
     obtain ⟨_, _, rfl⟩ := h
     exact (mark_absurd l1 hd).elim
-  · intro i items _ exp G Γ s t Γ' s' h hd B hB hΓ
-    obtain ⟨t1, Γ1, s1, h1, l1⟩ := go_le (.array i items) exp G Γ s.mark
-    have e : go (.array i items) exp G Γ s = go (.array i items) exp G Γ s.mark := by rw [go, go]; rfl
-    rw [e, h1] at h
-    simp only [Option.some.injEq, Prod.mk.injEq] at h
-    obtain ⟨_, _, rfl⟩ := h
-    exact (mark_absurd l1 hd).elim
+  -- array
+  · intro i items ih exp G Γ s t Γ' s' h hd B hB hΓ
+    rw [go] at h
+    obtain ⟨ts, Γ1, s1, h1, l1⟩ := (goL_le items).2.2.2.1 s.fresh.1 G Γ s.fresh.2
+    simp only [h1] at h
+    obtain ⟨rfl, rfl, lf, hexp⟩ := finish_inv h
+    simp only [binders] at hB
+    obtain ⟨e1, j1⟩ := ih.2.2.2 s.fresh.1 G Γ _ ts _ s1 h1 (lf.nodiag hd) B hB hΓ
+    refine ⟨e1, ?_, hexp⟩
+    simp only [obls, arrObls]
+    exact j1.mono lf
   -- constr
   · intro i info args ih exp G Γ s t Γ' s' h hd B hB hΓ
     rcases info with _ | _ | ⟨cty, arity⟩
@@ -497,7 +503,7 @@ theorem go_just : ∀ e, Just1 e := by
   -- arm
   · intro p body ih; exact ih
   -- []
-  · refine ⟨?_, ?_, ?_⟩
+  · refine ⟨?_, ?_, ?_, ?_⟩
     · intro G Γ s ts Γ' s' h hd B hB hΓ
       rw [goL] at h
       simp only [Option.some.injEq, Prod.mk.injEq] at h
@@ -512,9 +518,14 @@ theorem go_just : ∀ e, Just1 e := by
       simp only [Option.some.injEq, Prod.mk.injEq] at h
       obtain ⟨rfl, rfl, rfl⟩ := h
       exact ⟨hΓ, by simp only [oblsL]; exact JL.nil⟩
+    · intro el G Γ s ts Γ' s' h hd B hB hΓ
+      rw [goArr] at h
+      simp only [Option.some.injEq, Prod.mk.injEq] at h
+      obtain ⟨rfl, rfl, rfl⟩ := h
+      exact ⟨hΓ, by simp only [oblsL, relAll]; exact JL.nil⟩
   -- e :: es
   · intro e es ihe ihes
-    refine ⟨?_, ?_, ?_⟩
+    refine ⟨?_, ?_, ?_, ?_⟩
     · intro G Γ s ts Γ' s' h hd B hB hΓ
       rw [goL] at h
       obtain ⟨t, Γ1, s1, h1, l1⟩ := go_le e none G Γ s
@@ -549,8 +560,28 @@ theorem go_just : ∀ e, Just1 e := by
       obtain ⟨rfl, rfl, rfl⟩ := h
       simp only [bindersL] at hB
       obtain ⟨e1, j1, _⟩ := ihe _ G Γ s t Γ1 s1 h1 (l2.nodiag hd) B hB.left hΓ
-      obtain ⟨e2, j2⟩ := ihes.2.2 exp G Γ1 s1 ts2 _ _ h2 hd B hB.right e1
+      obtain ⟨e2, j2⟩ := ihes.2.2.1 exp G Γ1 s1 ts2 _ _ h2 hd B hB.right e1
       exact ⟨e2, by simp only [oblsL]; exact JL.append (j1.mono l2) j2⟩
+    · intro el G Γ s ts Γ' s' h hd B hB hΓ
+      rw [goArr] at h
+      obtain ⟨t, Γ1, s1, h1, l1⟩ := go_le e none G Γ s
+      obtain ⟨ts2, Γ2, s2, h2, l2⟩ := (goL_le es).2.2.2.1 el G Γ1 (s1.push (.eq t.ty el))
+      simp only [h1, h2, Option.some.injEq, Prod.mk.injEq] at h
+      obtain ⟨rfl, rfl, rfl⟩ := h
+      simp only [bindersL] at hB
+      have L1 : Le s1 s2 := (le_push _ _).trans l2
+      obtain ⟨e1, j1, _⟩ := ihe none G Γ s t Γ1 s1 h1 (L1.nodiag hd) B hB.left hΓ
+      obtain ⟨e2, j2⟩ := ihes.2.2.2 el G Γ1 _ ts2 _ _ h2 hd B hB.right e1
+      refine ⟨e2, ?_⟩
+      simp only [oblsL, relAll]
+      intro o ho
+      rcases List.mem_append.1 ho with ho | ho
+      · rcases List.mem_append.1 ho with ho | ho
+        · exact (j1.mono L1) o ho
+        · exact j2 o (List.mem_append_left _ ho)
+      · rcases List.mem_cons.1 ho with ho | ho
+        · rw [ho]; exact Or.inr (l2.mem _ (mem_push _ _))
+        · exact j2 o (List.mem_append_right _ ho)
   -- [] arms
   · intro sty exp armTy G Γ s tas Γ' s' h hd B hB hΓ
     rw [goArms] at h
